@@ -30,6 +30,7 @@ var boundsProps = map[string][]string{
 	"C15": {"staterecorder.go", "sim.go", "simops.go"},
 	"C05": {"lex.go", "forexpand.go", "symbol_scanner.go", "parser.go", "compile.go", "expr.go", "graph.go", "tokenbuf.go", "token.go"},
 	"C10": {"load.go", "asm.go"},
+	"C09": {"load.go", "asm.go"}, // a reader that panics on some layout (e.g. a last line without its newline) reads nothing back
 }
 
 type boundsResult struct {
